@@ -1,6 +1,7 @@
 //! Conformance harness binding the TLA+ specifications in /verif/spec to the real conjure-rust crates.
 //! Every subcommand reads NDJSON cases (emitted by TLC or by the seeded drivers in /verif/lib) on stdin
 //! and prints one NDJSON verdict/observation per case on stdout.  Panics of the code under test are data.
+mod body;
 mod codegen;
 mod negotiate;
 mod uri;
@@ -14,6 +15,7 @@ fn main() {
         "codegen-safe" => codegen::codegen_safe(rest),
         "negotiate" => negotiate::negotiate(rest),
         "uri" => uri::uri(rest),
+        "body" => body::body(rest),
         _ => {
             eprintln!("unknown subcommand {cmd:?}");
             2
